@@ -4,7 +4,7 @@ from props.m2common import *  # noqa: F401,F403
 from props.m2common import g, g1, sx, rng_for, fl, close, same, is_err, env_points, ref_value_at, TICK
 
 PID = "C07"
-KERNELS = ['K_tempo_seconds']   # translated from /repo on every run, tied to the model by coq/Gen/<name>_eq.v
+KERNELS = ['K_tempo_seconds', 'K_tempo_convert']   # translated from /repo on every run, tied to the model by coq/Gen/<name>_eq.v
 RUNNER = "impl_m2.py"
 N = {"quick": 700, "thorough": 25000}
 LEVEL_RULE = ("tempo trajectories with 1-6 points, bpm 20..240, curve shapes in {0, +-0.5 .. +-5}, jumps, total length 0.25-2x the "
